@@ -70,6 +70,26 @@ theorem merge_then_mutated_leaves_inputs (h : Heap) (os : List Obj) (x : Obj) (o
   obtain ⟨e, f⟩ := merge_spec h os
   rw [sep_implies_noninterference _ _ x ops (e.wf wx) (f.sep wx).1, e.view wx]
 
+/-- **`align_origin` / `align`**: the reference trajectory is only read; afterwards the aligned trajectory and the
+reference are still separated, so any later history on the aligned one (including `project`) leaves the reference
+unchanged -/
+theorem align_keeps_reference (h : Heap) (est ref : Obj) (rd ops later : List HOp)
+    (we : Wf h est) (wr : Wf h ref) (s : Sep est ref) :
+    let r := alignWith h est ref rd ops
+    view (hrun r.1 r.2.1 later).1 r.2.2 = view (hrun h ref rd).1 (hrun h ref rd).2 := by
+  intro r
+  obtain ⟨s1, w1, v1⟩ := alignWith_spec h est ref rd ops we wr s
+  rw [sep_implies_noninterference _ _ _ later w1 s1, v1]
+
+/-- **`merge_results`** deep-copies the first result: every trajectory of the merged result consists of new arrays, so
+operating on it leaves every existing object (in particular the inputs' trajectories) unchanged -/
+theorem merge_results_fresh_sep (h : Heap) (os : List Obj) (x : Obj) (wx : Wf h x) :
+    Ext h (deepcopyList h os).1 ∧
+    ∀ c ∈ (deepcopyList h os).2, Sep c x ∧ ∀ ops, view (hrun (deepcopyList h os).1 c ops).1 x = view h x := by
+  obtain ⟨e, f⟩ := deepcopyList_spec h os
+  refine ⟨e, fun c hc => ⟨((f c hc).sep wx).1, fun ops => ?_⟩⟩
+  rw [sep_implies_noninterference _ _ x ops (e.wf wx) ((f c hc).sep wx).1, e.view wx]
+
 /-- **the repaired splitters**: the call writes no existing array, every part consists of new
 arrays only (so it is separated from the parent and from every other object), and any history
 on a part leaves the parent's arrays unchanged -/
